@@ -52,6 +52,21 @@ type FakeGS struct {
 	// BeforeHook, when set, runs inside Request right before the outgoing-request hook
 	// (lets a workload place another operation exactly there)
 	BeforeHook func()
+	// LoopModel (default on): go-graphsync runs its request manager and its response manager as
+	// single-threaded event loops. Outgoing-request and incoming-response hooks run INSIDE the
+	// request manager's loop; incoming-request and request-updated hooks and the requestor-cancelled
+	// listener run INSIDE the response manager's loop; and Request/Cancel/Pause/Unpause/SendUpdate
+	// are messages to the owning loop whose reply the caller waits for (PauseResponse and
+	// UnpauseResponse do not even watch the caller's context while waiting). The double models each
+	// loop as a binary semaphore held while a hook runs and while one of those calls is served, so a
+	// caller that holds a lock the hook needs meets the same fate as with the real library.
+	// (Block hooks and completion/network listeners run on other goroutines in go-graphsync and
+	// take no loop here.)
+	LoopModel bool
+	// LoopGate, when set, is called with the loop held right before a hook is invoked ("the
+	// message has been queued but not yet handled"): lets a workload place another call exactly there
+	LoopGate          func(loop, hook string)
+	reqLoop, respLoop chan struct{}
 
 	OutgoingRequestHook               graphsync.OnOutgoingRequestHook
 	IncomingBlockHook                 graphsync.OnIncomingBlockHook
@@ -67,12 +82,46 @@ type FakeGS struct {
 	NetworkErrorListener              graphsync.OnNetworkErrorListener
 	ReceiverNetworkErrorListener      graphsync.OnReceiverNetworkErrorListener
 	unregistered                      int
+	outHookRaw                        graphsync.OnOutgoingRequestHook
 }
 
 var _ graphsync.GraphExchange = (*FakeGS)(nil)
 
 func NewFakeGS() *FakeGS {
-	return &FakeGS{reqs: map[graphsync.RequestID]*gsReq{}, opts: map[string]int{}}
+	return &FakeGS{reqs: map[graphsync.RequestID]*gsReq{}, opts: map[string]int{}, LoopModel: true, reqLoop: make(chan struct{}, 1), respLoop: make(chan struct{}, 1)}
+}
+
+// enter takes a manager loop (a channel semaphore, so that waiting for it counts as blocked
+// inside a synctest bubble) and returns the function that leaves it.
+func (f *FakeGS) enter(l chan struct{}) func() {
+	f.mu.Lock()
+	on := f.LoopModel
+	f.mu.Unlock()
+	if !on {
+		return func() {}
+	}
+	l <- struct{}{}
+	return func() { <-l }
+}
+
+func (f *FakeGS) gate(loop, hook string) {
+	f.mu.Lock()
+	g := f.LoopGate
+	f.mu.Unlock()
+	if g != nil {
+		g(loop, hook)
+	}
+}
+
+// loopOf is the loop that serves calls about id: the request manager for our own requests, the
+// response manager for everything else.
+func (f *FakeGS) loopOf(id graphsync.RequestID) chan struct{} {
+	f.mu.Lock()
+	defer f.mu.Unlock()
+	if _, ours := f.reqs[id]; ours {
+		return f.reqLoop
+	}
+	return f.respLoop
 }
 
 func (f *FakeGS) rec(c *GSCall) *GSCall {
@@ -103,15 +152,17 @@ func (f *FakeGS) Request(ctx context.Context, p peer.ID, root ipld.Link, selecto
 	rq := &gsReq{id: id, peer: p, rc: make(chan graphsync.ResponseProgress), ec: make(chan error, 1)}
 	f.mu.Lock()
 	f.reqs[id] = rq
-	hook := f.OutgoingRequestHook
+	hook := f.outHookRaw
 	before := f.BeforeHook
 	f.mu.Unlock()
+	leave := f.enter(f.reqLoop)
 	if before != nil {
 		before()
 	}
 	if hook != nil {
 		hook(p, testharness.NewFakeRequest(id, c.Exts, graphsync.RequestTypeNew), &testharness.FakeOutgoingRequestHookActions{})
 	}
+	leave()
 	f.fin(c, nil)
 	return rq.rc, rq.ec
 }
@@ -146,6 +197,7 @@ func (f *FakeGS) stall() {
 
 func (f *FakeGS) Cancel(ctx context.Context, id graphsync.RequestID) error {
 	c := f.rec(&GSCall{Op: "cancel", ID: id})
+	defer f.enter(f.loopOf(id))()
 	f.stall()
 	f.mu.Lock()
 	mode, cerr := f.CancelMode, f.CancelErr
@@ -168,18 +220,21 @@ func (f *FakeGS) Cancel(ctx context.Context, id graphsync.RequestID) error {
 }
 func (f *FakeGS) Pause(ctx context.Context, id graphsync.RequestID) error {
 	c := f.rec(&GSCall{Op: "pause", ID: id})
+	defer f.enter(f.loopOf(id))()
 	f.stall()
 	f.fin(c, nil)
 	return nil
 }
 func (f *FakeGS) Unpause(ctx context.Context, id graphsync.RequestID, exts ...graphsync.ExtensionData) error {
 	c := f.rec(&GSCall{Op: "unpause", ID: id, Exts: extMap(exts)})
+	defer f.enter(f.loopOf(id))()
 	f.stall()
 	f.fin(c, nil)
 	return nil
 }
 func (f *FakeGS) SendUpdate(ctx context.Context, id graphsync.RequestID, exts ...graphsync.ExtensionData) error {
 	c := f.rec(&GSCall{Op: "update", ID: id, Exts: extMap(exts)})
+	defer f.enter(f.loopOf(id))()
 	f.fin(c, nil)
 	return nil
 }
@@ -228,13 +283,21 @@ func (f *FakeGS) unreg() graphsync.UnregisterHookFunc {
 }
 func (f *FakeGS) RegisterIncomingRequestHook(h graphsync.OnIncomingRequestHook) graphsync.UnregisterHookFunc {
 	f.mu.Lock()
-	f.IncomingRequestHook = h
+	f.IncomingRequestHook = func(p peer.ID, r graphsync.RequestData, a graphsync.IncomingRequestHookActions) {
+		defer f.enter(f.respLoop)()
+		f.gate("response-manager", "incoming-request")
+		h(p, r, a)
+	}
 	f.mu.Unlock()
 	return f.unreg()
 }
 func (f *FakeGS) RegisterIncomingResponseHook(h graphsync.OnIncomingResponseHook) graphsync.UnregisterHookFunc {
 	f.mu.Lock()
-	f.IncomingResponseHook = h
+	f.IncomingResponseHook = func(p peer.ID, r graphsync.ResponseData, a graphsync.IncomingResponseHookActions) {
+		defer f.enter(f.reqLoop)()
+		f.gate("request-manager", "incoming-response")
+		h(p, r, a)
+	}
 	f.mu.Unlock()
 	return f.unreg()
 }
@@ -246,7 +309,11 @@ func (f *FakeGS) RegisterIncomingBlockHook(h graphsync.OnIncomingBlockHook) grap
 }
 func (f *FakeGS) RegisterOutgoingRequestHook(h graphsync.OnOutgoingRequestHook) graphsync.UnregisterHookFunc {
 	f.mu.Lock()
-	f.OutgoingRequestHook = h
+	f.outHookRaw = h
+	f.OutgoingRequestHook = func(p peer.ID, r graphsync.RequestData, a graphsync.OutgoingRequestHookActions) {
+		defer f.enter(f.reqLoop)()
+		h(p, r, a)
+	}
 	f.mu.Unlock()
 	return f.unreg()
 }
@@ -258,7 +325,11 @@ func (f *FakeGS) RegisterOutgoingBlockHook(h graphsync.OnOutgoingBlockHook) grap
 }
 func (f *FakeGS) RegisterRequestUpdatedHook(h graphsync.OnRequestUpdatedHook) graphsync.UnregisterHookFunc {
 	f.mu.Lock()
-	f.RequestUpdatedHook = h
+	f.RequestUpdatedHook = func(p peer.ID, r graphsync.RequestData, u graphsync.RequestData, a graphsync.RequestUpdatedHookActions) {
+		defer f.enter(f.respLoop)()
+		f.gate("response-manager", "request-updated")
+		h(p, r, u, a)
+	}
 	f.mu.Unlock()
 	return f.unreg()
 }
@@ -282,7 +353,10 @@ func (f *FakeGS) RegisterCompletedResponseListener(l graphsync.OnResponseComplet
 }
 func (f *FakeGS) RegisterRequestorCancelledListener(l graphsync.OnRequestorCancelledListener) graphsync.UnregisterHookFunc {
 	f.mu.Lock()
-	f.RequestorCancelledListener = l
+	f.RequestorCancelledListener = func(p peer.ID, r graphsync.RequestData) {
+		defer f.enter(f.respLoop)()
+		l(p, r)
+	}
 	f.mu.Unlock()
 	return f.unreg()
 }
@@ -437,3 +511,10 @@ func (e *RecEvents) Calls() []HCall {
 	return append([]HCall(nil), e.calls...)
 }
 func (e *RecEvents) Len() int { e.mu.Lock(); defer e.mu.Unlock(); return len(e.calls) }
+
+// SetLoopGate installs (or removes) the gate called with a manager loop held right before a hook runs.
+func (f *FakeGS) SetLoopGate(g func(loop, hook string)) {
+	f.mu.Lock()
+	f.LoopGate = g
+	f.mu.Unlock()
+}
